@@ -558,6 +558,8 @@ def abits : String := "001000000000000000000000000000000000000100001011000202001
 
 /-- `sm9_u256_pairing(q, p)` -/
 def sm9_u256_pairing (q : TwistPoint) (p : Point) : Fp12 :=
+  -- `if q.z.is_zero() || p.is_zero() { return Fp12::one(); }` (e(P, O) = e(O, Q) = 1)
+  if q.z.is_zero || p.is_zero then Fp12.one else
   let t : TwistPoint := ⟨q.x, q.y, q.z⟩
   let p_affine := p.to_affine_point
   let q1 := q.point_neg
